@@ -125,6 +125,12 @@ class Sim:
             held = self.replaced.get(key)
             if held is not None and held[1] == op["value"]:
                 new = held[0]
+        if new is None and op.get("derived_from"):
+            # a quantity computed from another input of the model (it keeps that input as parent), labelled
+            m_, a_, f_ = op["derived_from"]
+            from efootprint.abstract_modeling_classes.source_objects import SourceValue
+            from efootprint.constants.units import u
+            new = (getattr(self.obj(m_), a_) * SourceValue(float(f_) * u.dimensionless)).set_label(op["label"])
         if new is None:
             new = self._new_for(op)
         old = o.__dict__.get(op["attr"])
@@ -179,6 +185,12 @@ class Sim:
             del names[args[0]:args[1]]
         elif m == "setslice":
             names[args[0]:args[1]] = args[2]
+        elif m == "reverse":
+            names.reverse()
+        elif m == "sort":
+            names.sort()
+        elif m == "alias_append2":
+            names.extend(args)
         else:
             raise AssertionError(m)
         return names, ret
@@ -189,6 +201,7 @@ class Sim:
         attr, m = op["attr"], op["method"]
         args = op.get("args", [])
         for a in ([args[0]] if m in ("append", "remove") else [args[1]] if m in ("insert", "setitem")
+                  else args if m == "alias_append2"
                   else args[0] if m in ("extend", "iadd") else args[2] if m == "setslice" else []):
             self.obj(a)
         cur = list(self.sattrs(op["obj"])[attr][1])
@@ -246,6 +259,13 @@ class Sim:
             del lst[args[0]:args[1]]
         elif m == "setslice":
             lst[args[0]:args[1]] = [self.obj(n) for n in args[2]]
+        elif m == "reverse":
+            lst.reverse()
+        elif m == "sort":
+            lst.sort(key=lambda x: x.name)
+        elif m == "alias_append2":
+            lst.append(self.obj(args[0]))
+            lst.append(self.obj(args[1]))
         else:
             raise AssertionError(m)
         if new_names is not None:
@@ -367,6 +387,17 @@ class Sim:
         env.IDS.pending_name = name
         try:
             cls(name, **kwargs)
+        except Exception as e:
+            # which objects of the (scratch) model still report the half-built object among their users?
+            ghosts = []
+            for n_, o_ in scratch.objs.items():
+                try:
+                    if any(getattr(c, "name", None) == name for c in o_.modeling_obj_containers):
+                        ghosts.append(n_)
+                except Exception:
+                    pass
+            e.efsim_ghost_links = sorted(ghosts)
+            raise
         finally:
             env.IDS.pending_name = None
 
